@@ -220,6 +220,45 @@ def abstract_schedules(ctx, n, *, cex=False, seed_off=0):
     return out[:n]
 
 
+def cluster_abstract_cases(ctx, n, *, cex=False, seed_off=0):
+    """CsAbstract behaviours for harness/csnode TestClusterAbstract: two of the three correct validators run the real
+    engine (for counterexamples: the two that decide differently)."""
+    rnd = random.Random(ctx.seed + seed_off)
+    if cex:
+        bs = ctx.behaviours("consensus", "Gen_CsAbstract", "Gen_CsAbstractCex.cfg", timeout=1800)
+    else:
+        bs = ctx.behaviours("consensus", "Gen_CsAbstract", "Gen_CsAbstract.cfg", simulate="num=%d" % max(100, 4 * n),
+                            depth=60, seed=ctx.seed + seed_off, timeout=900)
+    rnd.shuffle(bs)
+    out = []
+    for b in bs:
+        commits = {}
+        for s in b:
+            if s["a"] == "commit":
+                commits.setdefault(s["val"], []).append(s["i"])
+        if cex:
+            if len(commits) < 2:
+                continue
+            # real engines: the validator that restarts and decides one value, and a validator that decides the other
+            # value; the third correct validator is fabricated (a real proposer cannot be made to re-propose an old value
+            # unless it is locked, a fabricated one can)
+            crashed = [s["i"] for s in b if s["a"] == "crash"]
+            dec = {i: v for v, l in commits.items() for i in l}
+            pair = [(i, j) for i in crashed if i in dec for j in dec if dec[j] != dec[i]]
+            if not pair:
+                continue
+            real = list(pair[0])
+        else:
+            act = sorted(("a", "b", "c"), key=lambda m: -sum(1 for s in b if s["a"] == "precommit" and s["g"].get(m) in ("lock", "locknosend")))
+            if not any(s["a"] == "precommit" and "lock" in s["g"].values() for s in b):
+                continue
+            real = act[:2] if rnd.random() < 0.5 else ["a", "b", "c"]
+        out.append(dict(steps=b, real=real, idx=IDX))
+        if len(out) >= n:
+            break
+    return out
+
+
 def directed(ctx):
     res = []
     for f in sorted(glob.glob(os.path.join(vlib.SPEC, "consensus", "directed", "*.json"))):
